@@ -102,6 +102,48 @@ CHECKS = {
         note="Trusted: TLC, harness. Kill = process exit, not power loss. Concurrent pushes forced through the verif yield point (gate times out when the store serialises pushes).",
         technique="TLA+ spec + TLC exhaustive check + replay of TLC behaviours (incl. crash points and forced interleaving) on the real store",
     ),
+    "C05": dict(
+        category="model_checking",
+        text='Core.tla (pipeline and routing algorithms as operators, one action per event: submit, receive, peer up/down, send outcome, retry tick, cleaning tick, restart) is model-checked per algorithm; one behaviour per edge of the reduced state graph plus random deep ones are replayed on a real routing.Core, comparing stored bundles, pending flags, transmissions, deliveries and reports after every event; families: plain, same-millisecond, clock-less.',
+        design_ref='DESIGN.md section 6 C05',
+        note='Trusted: TLC, the mock convergence layers / mock agent and the barrier protocol of the driver (DESIGN.md appendix A), in-package reads of the store and of the spray counters. Bounds: 2-4 bundles, 2-4 peers, history length 4-6 exhaustively per algorithm, 10-20 random.',
+        technique="TLA+ spec of the processing pipeline + TLC exhaustive check + replay of TLC behaviours on a real routing.Core with mock CLAs",
+    ),
+    "C06": dict(
+        category="model_checking",
+        text='Same replay; every bundle handed to a convergence layer is compared block by block with what the node accepted (hop count +1 on every attempt, previous node, bundle age in ms within the measured residence, removed/unchanged/added blocks); guard outcomes (hop limit, lifetime by time and by age) come from Core.tla.',
+        design_ref='DESIGN.md section 6 C06',
+        note='Trusted: TLC, the mock convergence layers / mock agent and the barrier protocol of the driver (DESIGN.md appendix A), in-package reads of the store and of the spray counters. Bounds: 2-4 bundles, 2-4 peers, history length 4-6 exhaustively per algorithm, 10-20 random.',
+        technique="TLA+ spec of the processing pipeline + TLC exhaustive check + replay of TLC behaviours on a real routing.Core with mock CLAs",
+    ),
+    "C13": dict(
+        category="model_checking",
+        text='Same replay over bundles arriving with every previous node, 3-4 peers, all algorithms incl. DTLSR broadcasts; besides the per-step comparison with Core.tla the transmission log is judged directly (never to the previous node, never again after a success while stored, failed peer eligible again).',
+        design_ref='DESIGN.md section 6 C13',
+        note='Trusted: TLC, the mock convergence layers / mock agent and the barrier protocol of the driver (DESIGN.md appendix A), in-package reads of the store and of the spray counters. Bounds: 2-4 bundles, 2-4 peers, history length 4-6 exhaustively per algorithm, 10-20 random.',
+        technique="TLA+ spec of the processing pipeline + TLC exhaustive check + replay of TLC behaviours on a real routing.Core with mock CLAs",
+    ),
+    "C14": dict(
+        category="model_checking",
+        text='Core.tla assigns the sequence number at Submit before the store key exists (and skips numbers still in the store); behaviours over bundles sharing source and creation millisecond / zero creation time with peers, failures, retries and restarts are replayed; stored and transmitted sequence numbers are compared with the assigned one after every event.',
+        design_ref='DESIGN.md section 6 C14',
+        note='Trusted: TLC, the mock convergence layers / mock agent and the barrier protocol of the driver (DESIGN.md appendix A), in-package reads of the store and of the spray counters. Bounds: 2-4 bundles, 2-4 peers, history length 4-6 exhaustively per algorithm, 10-20 random.',
+        technique="TLA+ spec of the processing pipeline + TLC exhaustive check + replay of TLC behaviours on a real routing.Core with mock CLAs",
+    ),
+    "C15": dict(
+        category="model_checking",
+        text='Core.tla emits a report only for an event of that step that was requested; behaviours over request-flag combinations x outcomes are replayed; every report found in transmissions or the store is decoded and checked (admin record, no request flags, report-to, exact ID incl. fragment fields, time iff requested) and the set per event compared with the spec.',
+        design_ref='DESIGN.md section 6 C15',
+        note='Trusted: TLC, the mock convergence layers / mock agent and the barrier protocol of the driver (DESIGN.md appendix A), in-package reads of the store and of the spray counters. Bounds: 2-4 bundles, 2-4 peers, history length 4-6 exhaustively per algorithm, 10-20 random.',
+        technique="TLA+ spec of the processing pipeline + TLC exhaustive check + replay of TLC behaviours on a real routing.Core with mock CLAs",
+    ),
+    "C18": dict(
+        category="model_checking",
+        text="Core.tla with spray / binary spray, budgets 1..4(8): TLC checks 0<=copies<=budget and conservation in every state; behaviours replayed; the algorithm's copy counter (read in-package) and the BinarySprayBlock of every transmitted copy are compared with the spec after every event.",
+        design_ref='DESIGN.md section 6 C18',
+        note='Trusted: TLC, the mock convergence layers / mock agent and the barrier protocol of the driver (DESIGN.md appendix A), in-package reads of the store and of the spray counters. Bounds: 2-4 bundles, 2-4 peers, history length 4-6 exhaustively per algorithm, 10-20 random.',
+        technique="TLA+ spec of the processing pipeline + TLC exhaustive check + replay of TLC behaviours on a real routing.Core with mock CLAs",
+    ),
 }
 
 NOT_YET = "machinery for this property is not built yet in this revision (planned in DESIGN.md section 6)"
